@@ -709,4 +709,198 @@ theorem system_roundtrip (parent : Sys) (base : Option String) (fs : FS) (o : L2
     rw [h1, h2, hany]; rfl
   exact hfin
 
+theorem system_reserialise (o : L2) (hwf : SystemWF o) : systemToDict (rp2 o) = systemToDict o := by
+  obtain ⟨us, net, sp, state, chem, rfl, _, hnet, hsp, hsv, _, _⟩ := hwf
+  unfold systemToDict
+  rw [systemFields_eq]
+  refine toDictG_reparse _ _ _ _ _ _ ?_
+  intro f hfm
+  simp only [List.mem_cons, List.not_mem_nil, or_false] at hfm
+  rcases hfm with rfl | rfl | rfl | rfl
+  · show writeL1 (rp1 net) = writeL1 net
+    have e : writeL1 (rp1 net) = networkToDict (rp1 net) := by
+      obtain ⟨_, _, _, _, rfl, _⟩ := hnet; rfl
+    rw [e, writeL1_network net hnet, network_reserialise net hnet]
+  · show writeL1 (rp1 sp) = writeL1 sp
+    have e : writeL1 (rp1 sp) = spaceToDict (rp1 sp) := by
+      rcases hsp with ⟨_, _, _, _, _, _, _, _, _, rfl, _⟩ | ⟨_, _, _, rfl, _⟩ <;> rfl
+    rw [e, writeL1_space sp hsp, space_reserialise sp hsp]
+  · exact (array_physical state hsv).2.2.2
+  · rfl
+
+/-! ## script: system + sampling parameters + seed + initial-state processing mode -/
+
+abbrev rp3 : L3 → L3 := reparseObj rp2
+
+def scriptObj (us : Sys) (sys : L2) (ts : UArr) (dt : UVal) (tmax : Val L2) (policy : String) (interval : UVal)
+    (seed : Int) (mode : String) : L3 :=
+  [("units_system", .sys us), ("system", .child sys), ("t_sample", .arr ts), ("time_step", .qty dt), ("t_max", tmax),
+   ("sampling_policy", .str policy), ("sampling_interval", .qty interval), ("rng_seed", .int seed),
+   ("init_state_processing", .str mode)]
+
+def TimeWF (x : UVal) : Prop := x.u.sys.valid = true ∧ x.u.dim = Dim.time_
+
+/-- a script as the constructor leaves it: `t_max` is a time, or "default" (then there is a last requested time) -/
+def ScriptWF (o : L3) : Prop :=
+  ∃ us sys ts dt tmax policy interval seed mode, o = scriptObj us sys ts dt tmax policy interval seed mode ∧
+    us.valid = true ∧ SystemWF sys ∧ ts.u.sys.valid = true ∧ ts.u.dim = Dim.time_ ∧ TimeWF dt ∧ TimeWF interval ∧
+    ((∃ x, tmax = .qty x ∧ TimeWF x) ∨ (tmax = .str "default" ∧ ts.vs ≠ [])) ∧
+    DictKeys.pyPolicies.contains policy = true ∧ DictKeys.pyModes.contains mode = true
+
+theorem scriptFields_eq : scriptFields =
+    [⟨"system", "system", .childOrPath "system", none⟩, ⟨"t_sample", "t_sample", .uarr Dim.time_, none⟩,
+     ⟨"time_step", "time_step", .qty Dim.time_, some (.num (1 / 1000))⟩, ⟨"t_max", "t_max", .tmax, some (.str "default")⟩,
+     ⟨"sampling_policy", "sampling_policy", .enum DictKeys.pyPolicies, some (.str "on_t_sample")⟩,
+     ⟨"sampling_interval", "sampling_interval", .qty Dim.time_, some (.num 1)⟩, ⟨"rng_seed", "rng_seed", .seed, some .null⟩,
+     ⟨"init_state_processing", "init_state_processing", .enum DictKeys.pyModes, some (.str "auto")⟩] := by rfl
+
+theorem level2Child_system (fs : FS) (us : Sys) (b : Option String) (j : Json) :
+    level2Child fs "system" us b j = systemFromDict us b fs j := rfl
+
+/-- the script with an explicit `t_max` (what `rdscript_to_dict` always writes) -/
+theorem script_roundtrip_explicit (base : Option String) (fs : FS) (us : Sys) (sys : L2) (ts : UArr) (dt x : UVal)
+    (policy : String) (interval : UVal) (seed : Int) (mode : String)
+    (hus : us.valid = true) (hsys : SystemWF sys) (htv : ts.u.sys.valid = true) (htd : ts.u.dim = Dim.time_)
+    (hdt : TimeWF dt) (hint : TimeWF interval) (hx : TimeWF x)
+    (hpol : DictKeys.pyPolicies.contains policy = true) (hmode : DictKeys.pyModes.contains mode = true) :
+    scriptFromDict base fs (toDictG scriptFields [] none systemToDict (scriptObj us sys ts dt (.qty x) policy interval seed mode)) =
+      .ok (rp3 (scriptObj us sys ts dt (.qty x) policy interval seed mode)) := by
+  obtain ⟨kvs, hkvs⟩ : ∃ kv, systemToDict sys = .obj kv := ⟨_, toDictG_eq _ _ _ _ _⟩
+  unfold scriptFromDict
+  rw [scriptFields_eq]
+  let g : Field → Val L2 := fun f =>
+    if f.param == "system" then .child (rp2 sys) else if f.param == "t_sample" then .arr (reparseArr ts)
+    else if f.param == "time_step" then .qty (reparse dt) else if f.param == "t_max" then .qty (reparse x)
+    else if f.param == "sampling_policy" then .str policy else if f.param == "sampling_interval" then .qty (reparse interval)
+    else if f.param == "rng_seed" then .int seed else .str mode
+  have hgen := generic_roundtrip DictKeys.script
+    [⟨"system", "system", .childOrPath "system", none⟩, ⟨"t_sample", "t_sample", .uarr Dim.time_, none⟩,
+     ⟨"time_step", "time_step", .qty Dim.time_, some (.num (1 / 1000))⟩, ⟨"t_max", "t_max", .tmax, some (.str "default")⟩,
+     ⟨"sampling_policy", "sampling_policy", .enum DictKeys.pyPolicies, some (.str "on_t_sample")⟩,
+     ⟨"sampling_interval", "sampling_interval", .qty Dim.time_, some (.num 1)⟩, ⟨"rng_seed", "rng_seed", .seed, some .null⟩,
+     ⟨"init_state_processing", "init_state_processing", .enum DictKeys.pyModes, some (.str "auto")⟩]
+    [] none Sys.default base fs (level2Child fs) systemToDict (scriptObj us sys ts dt (.qty x) policy interval seed mode) g
+    ["units", "system", "t_sample", "time_step", "t_max", "sampling_policy", "sampling_interval", "rng_seed",
+     "init_state_processing"] rfl (by decide +kernel) (by decide +kernel) (by decide +kernel)
+    (readUnits_write Sys.default _ us hus) (by
+      intro f hfm
+      simp only [List.mem_cons, List.not_mem_nil, or_false] at hfm
+      rcases hfm with rfl | rfl | rfl | rfl | rfl | rfl | rfl | rfl
+      · show readKind _ _ (.childOrPath "system") (systemToDict sys) = _
+        rw [hkvs, readKind_childOrPath_obj]
+        show (level2Child fs "system" us base (.obj kvs)).map Val.child = _
+        rw [level2Child_system, ← hkvs, system_roundtrip us base fs sys hsys]; rfl
+      · exact readKind_uarr _ _ systemToDict ts Dim.time_ (printable_of_valid _ htv) htd
+      · exact readKind_qty_write _ _ _ systemToDict dt (printable_of_valid _ hdt.1) hdt.2
+      · exact readKind_tmax_qty _ _ systemToDict x (printable_of_valid _ hx.1) hx.2
+      · exact readKind_enum _ _ systemToDict _ policy hpol
+      · exact readKind_qty_write _ _ _ systemToDict interval (printable_of_valid _ hint.1) hint.2
+      · exact readKind_seed _ _ systemToDict seed
+      · exact readKind_enum _ _ systemToDict _ mode hmode)
+  rw [hgen]
+  rfl
+
+theorem resolveTmax_qty (us : Sys) (sys : L2) (ts : UArr) (dt x : UVal) (policy : String) (interval : UVal) (seed : Int) (mode : String) :
+    resolveTmax (scriptObj us sys ts dt (.qty x) policy interval seed mode) = scriptObj us sys ts dt (.qty x) policy interval seed mode := rfl
+
+theorem resolveTmax_default (us : Sys) (sys : L2) (ts : UArr) (dt : UVal) (policy : String) (interval : UVal) (seed : Int)
+    (mode : String) (v : Rat) (hv : ts.vs.getLast? = some v) :
+    resolveTmax (scriptObj us sys ts dt (.str "default") policy interval seed mode) =
+      scriptObj us sys ts dt (.qty ⟨v, ts.u⟩) policy interval seed mode := by
+  simp [resolveTmax, scriptObj, List.lookup, hv]
+
+/-- `rdscript_from_dict(rdscript_to_dict(s))`: the reloaded script is the original with `t_max` made explicit
+(the last requested sample time when it was "default") and every quantity re-read from its text: sampling
+parameters, policy, seed (0 included), initial-state processing mode, units systems and the whole system -/
+theorem script_roundtrip (base : Option String) (fs : FS) (o : L3) (hwf : ScriptWF o) :
+    scriptFromDict base fs (scriptToDict o) = .ok (rp3 (resolveTmax o)) := by
+  obtain ⟨us, sys, ts, dt, tmax, policy, interval, seed, mode, rfl, hus, hsys, htv, htd, hdt, hint, htm, hpol, hmode⟩ := hwf
+  unfold scriptToDict
+  rcases htm with ⟨x, rfl, hx⟩ | ⟨rfl, hne⟩
+  · rw [resolveTmax_qty]
+    exact script_roundtrip_explicit base fs us sys ts dt x policy interval seed mode hus hsys htv htd hdt hint hx hpol hmode
+  · obtain ⟨v, hv⟩ : ∃ v, ts.vs.getLast? = some v := by
+      cases h : ts.vs.getLast? with
+      | none => exact absurd (List.getLast?_eq_none_iff.1 h) hne
+      | some v => exact ⟨v, rfl⟩
+    rw [resolveTmax_default us sys ts dt policy interval seed mode v hv]
+    exact script_roundtrip_explicit base fs us sys ts dt ⟨v, ts.u⟩ policy interval seed mode hus hsys htv htd hdt hint
+      ⟨htv, htd⟩ hpol hmode
+
+theorem script_reserialise_explicit (us : Sys) (sys : L2) (ts : UArr) (dt x : UVal) (policy : String) (interval : UVal)
+    (seed : Int) (mode : String) (hsys : SystemWF sys) (htv : ts.u.sys.valid = true) (hdt : TimeWF dt) (hint : TimeWF interval)
+    (hx : TimeWF x) :
+    scriptToDict (rp3 (scriptObj us sys ts dt (.qty x) policy interval seed mode)) =
+      toDictG scriptFields [] none systemToDict (scriptObj us sys ts dt (.qty x) policy interval seed mode) := by
+  unfold scriptToDict
+  have hr : resolveTmax (rp3 (scriptObj us sys ts dt (.qty x) policy interval seed mode)) =
+      rp3 (scriptObj us sys ts dt (.qty x) policy interval seed mode) := rfl
+  rw [hr, scriptFields_eq]
+  refine toDictG_reparse _ _ _ _ _ _ ?_
+  intro f hfm
+  simp only [List.mem_cons, List.not_mem_nil, or_false] at hfm
+  rcases hfm with rfl | rfl | rfl | rfl | rfl | rfl | rfl | rfl
+  · exact system_reserialise sys hsys
+  · exact (array_physical ts htv).2.2.2
+  · exact (quantity_physical dt hdt.1).2.2.2
+  · exact (quantity_physical x hx.1).2.2.2
+  · rfl
+  · exact (quantity_physical interval hint.1).2.2.2
+  · rfl
+  · rfl
+
+/-- serialising the reloaded script gives the same dictionary -/
+theorem script_reserialise (o : L3) (hwf : ScriptWF o) : scriptToDict (rp3 (resolveTmax o)) = scriptToDict o := by
+  obtain ⟨us, sys, ts, dt, tmax, policy, interval, seed, mode, rfl, _, hsys, htv, htd, hdt, hint, htm, _, _⟩ := hwf
+  rcases htm with ⟨x, rfl, hx⟩ | ⟨rfl, hne⟩
+  · rw [resolveTmax_qty, script_reserialise_explicit us sys ts dt x policy interval seed mode hsys htv hdt hint hx]
+    rfl
+  · obtain ⟨v, hv⟩ : ∃ v, ts.vs.getLast? = some v := by
+      cases h : ts.vs.getLast? with
+      | none => exact absurd (List.getLast?_eq_none_iff.1 h) hne
+      | some v => exact ⟨v, rfl⟩
+    rw [resolveTmax_default us sys ts dt policy interval seed mode v hv,
+      script_reserialise_explicit us sys ts dt ⟨v, ts.u⟩ policy interval seed mode hsys htv hdt hint ⟨htv, htd⟩]
+    unfold scriptToDict
+    rw [resolveTmax_default us sys ts dt policy interval seed mode v hv]
+
+/-! ## non-vacuity: a concrete heterogeneous system satisfies every well-formedness predicate -/
+
+def exSpecies : L0 := speciesObj' ⟨"mm", "min", "mol"⟩ "A"
+  (.envQty [("cyt", ⟨2, ⟨⟨"km", "h", "molecule"⟩, Dim.diffusion⟩⟩), ("default", ⟨0, ⟨⟨"mm", "min", "mol"⟩, Dim.diffusion⟩⟩)])
+  (.qty ⟨3, ⟨⟨"dm", "s", "mol"⟩, Dim.density⟩⟩) (.bool false)
+def exReaction : L0 := reactionObj ⟨"µm", "s", "molecule"⟩ .none [("A", 2)] []
+  (.qty ⟨5, ⟨⟨"µm", "s", "molecule"⟩, kDim 2⟩⟩) (.qty ⟨0, ⟨⟨"µm", "s", "molecule"⟩, kDim 0⟩⟩)
+def exNetwork : L1 := networkObj ⟨"m", "s", "mol"⟩ [exSpecies] [exReaction] ["cyt", "mem"]
+def exGraph : L1 := graphObj ⟨"µm", "s", "molecule"⟩
+  [nodeObj ⟨"mm", "s", "molecule"⟩ ⟨2, ⟨⟨"mm", "s", "molecule"⟩, Dim.volume⟩⟩ 0,
+   nodeObj ⟨"µm", "s", "molecule"⟩ ⟨3, ⟨⟨"nm", "s", "mol"⟩, Dim.volume⟩⟩ 1]
+  [edgeObj ⟨"cm", "h", "mol"⟩ 0 1 ⟨3/2, ⟨⟨"cm", "h", "mol"⟩, Dim.surface⟩⟩ ⟨1/2, ⟨⟨"cm", "h", "mol"⟩, Dim.length⟩⟩]
+
+theorem example_wf :
+    SpeciesWF exSpecies ∧ ReactionWF exReaction ∧ NetworkWF exNetwork ∧ GraphWF exGraph ∧
+    SystemWF (systemObj ⟨"km", "h", "kmol"⟩ exNetwork exGraph ⟨[1, 2], ⟨⟨"µm", "s", "mmol"⟩, Dim.quantity⟩⟩ [0, 1]) := by
+  have hs : SpeciesWF exSpecies := ⟨_, _, _, _, _, rfl, by decide +kernel, by decide +kernel,
+    .inr ⟨_, rfl, ⟨by decide +kernel, by decide +kernel⟩, by decide +kernel, by decide +kernel⟩,
+    .inl ⟨_, rfl, by decide +kernel, rfl⟩, .inl ⟨_, rfl⟩⟩
+  have hr : ReactionWF exReaction := ⟨_, _, _, _, _, _, rfl, by decide +kernel, .inl rfl,
+    .inl ⟨_, rfl, by decide +kernel, by decide +kernel⟩, .inl ⟨_, rfl, by decide +kernel, by decide +kernel⟩⟩
+  have hn : NetworkWF exNetwork := ⟨_, _, _, _, rfl, by decide +kernel,
+    by intro c hc; simp only [List.mem_singleton] at hc; exact hc ▸ hs,
+    by intro c hc; simp only [List.mem_singleton] at hc; exact hc ▸ hr,
+    by decide, by decide +kernel, by decide +kernel⟩
+  have hg : GraphWF exGraph := ⟨_, _, _, rfl, by decide +kernel,
+    by
+      intro c hc
+      simp only [List.mem_cons, List.not_mem_nil, or_false] at hc
+      rcases hc with rfl | rfl
+      · exact ⟨_, _, _, rfl, by decide +kernel, by decide +kernel, rfl⟩
+      · exact ⟨_, _, _, rfl, by decide +kernel, by decide +kernel, rfl⟩,
+    by
+      intro c hc
+      simp only [List.mem_singleton] at hc
+      subst hc
+      exact ⟨_, _, _, _, _, rfl, by decide +kernel, by decide +kernel, rfl, by decide +kernel, rfl⟩⟩
+  exact ⟨hs, hr, hn, hg, _, _, _, _, _, rfl, by decide +kernel, hn, .inr hg, by decide +kernel, rfl, by decide +kernel⟩
+
 end Strengths.C12
